@@ -297,12 +297,15 @@ fn lpf_pdf(rng: &mut Rng, veclen: usize, nwin: usize) -> Vec<f32> {
     out
 }
 
-pub const WINDOW_SETS: [&[&[f64]]; 5] = [
+pub const WINDOW_SETS: [&[&[f64]]; 7] = [
     &[&[1.0]],
     &[&[1.0], &[-0.5, 0.0, 0.5]],
     &[&[1.0], &[-0.5, 0.0, 0.5], &[1.0, -2.0, 1.0]],
     &[&[1.0], &[-0.2, -0.1, 0.0, 0.1, 0.2], &[0.285714, -0.142857, -0.285714, -0.142857, 0.285714]],
     &[&[1.0], &[-1.0, 1.0, 0.0]],
+    // window sets whose widest window is not the last one (seeded change C01g: band width from the last window)
+    &[&[1.0], &[-0.2, -0.1, 0.0, 0.1, 0.2], &[1.0, -2.0, 1.0]],
+    &[&[1.0], &[-0.2, -0.1, 0.0, 0.1, 0.2]],
 ];
 
 impl VoiceSpec {
